@@ -255,13 +255,21 @@ class SFileW(Sym):
         raise Unsupported(f"file.{name}")
 
 
+UTF8OK = z3.Function("utf8_decodable", Data, z3.BoolSort())
+
+
 class SBytes(Sym):
     def __init__(self, d, kind, dom=None, val=None):
         self.d, self.kind, self.dom, self.val = d, kind, dom, val
 
     def sym_getattr(self, ex, name):
         if name == "decode":
-            return NativeStub(lambda: SText(self.d, self.kind), "bytes.decode")
+            def decode(*a, **k):
+                # bytes that are a JSON text are UTF-8; any other content may fail to decode: UnicodeDecodeError (a ValueError, not a JSONDecodeError)
+                if not ex.decide(z3.Or(jsonok(self.d) if self.kind != "cache" else cache_ok(self.d), UTF8OK(self.d)), "bytes-decode:utf8"):
+                    raise RaiseSignal(UnicodeDecodeError("utf-8", b"\xff", 0, 1, "invalid start byte"))
+                return SText(self.d, self.kind)
+            return NativeStub(decode, "bytes.decode")
         raise Unsupported(f"bytes.{name}")
 
 
